@@ -63,6 +63,72 @@ def clause_bool(ip, fn, env, what, mode="goal"):
         ip.clause_mode = prev
 
 
+def is_writable(ip, v):
+    """May the caller let a callee modify v?  (fresh in this activation, or covered by the caller's own modifies)"""
+    from .builtins_model import FreshZ
+    if isinstance(v, FreshZ):
+        return True
+    if isinstance(v, (SObj, LList, LDict)):
+        return bool(v.fresh) or id(v) in ip.modifies_ok or (isinstance(v, SObj) and (v.oid, "*") in ip.modifies_ok)
+    if isinstance(v, C) and isinstance(v.v, (type(None), bool, int, float, str)):
+        return True
+    return id(v) in ip.modifies_ok
+
+
+def _attr_writable(ip, v, attr):
+    if is_writable(ip, v):
+        return True
+    return isinstance(v, Z) and ("zattr", v.t.get_id(), attr) in ip.modifies_ok
+
+
+def modifies_applies(ip, con, node, bound):
+    """Evaluate the optional `modifies_when` guard of a frame contract on the actual arguments (defaults from the ast)."""
+    when = getattr(con, "modifies_when", None)
+    if when is None:
+        return True
+    import inspect as _insp
+    want = list(_insp.signature(when).parameters)
+    vals = {}
+    for w in want:
+        if w in bound:
+            vals[w] = bound[w]
+        else:
+            d = _insp.signature(when).parameters[w].default
+            vals[w] = C(d)
+    from .comp import merged_bool
+    cond = merged_bool(ip, lambda sub: eval_clause(sub, when, vals, "modifies_when"))
+    cond = z3.simplify(cond)
+    if z3.is_false(cond):
+        return False
+    if z3.is_true(cond):
+        return True
+    return ip.path.feasible(cond)            # may modify on some input consistent with the path
+
+
+def check_modifies_args(ip, con, node, args, kwargs, qn):
+    """Frame check of a call against the callee's `modifies` clause (entries 'param' or 'param.attr')."""
+    if not con.modifies:
+        return
+    pos = [a.arg for a in node.args.posonlyargs + node.args.args]
+    bound = {p: a for p, a in zip(pos, args)}
+    bound.update({k: v for k, v in kwargs.items() if k != "**"})
+    if not modifies_applies(ip, con, node, bound):
+        return
+    for m in con.modifies:
+        pname = m.split(".", 1)[0]
+        v = bound.get(pname)
+        if v is None:
+            continue
+        if isinstance(v, SObj) and "." in m:
+            attr = m.split(".", 1)[1]
+            if not v.fresh and (v.oid, attr) not in ip.modifies_ok and (v.oid, "*") not in ip.modifies_ok:
+                ip.frame_violation(f"call of {qn} modifies {v.name}.{attr}")
+            continue
+        ok = _attr_writable(ip, v, m.split(".", 1)[1]) if "." in m else is_writable(ip, v)
+        if not ok:
+            ip.frame_violation(f"call of {qn} modifies its argument `{m}`, which is not fresh in the caller")
+
+
 def apply_contract(ip, con, f, args, kwargs):
     from .interp import PyRaise
     node = ip.program.node_of(f)
@@ -71,14 +137,17 @@ def apply_contract(ip, con, f, args, kwargs):
     qn = con.qualname
     if con.requires is not None:
         ip.path.oblige(f"call {qn}#requires", clause_bool(ip, con.requires, env, f"{qn}#requires"), kind="requires")
-    # modifies: havoc the listed attributes (they must be writable in the caller's frame)
-    for m in con.modifies:
-        pname, attr = m.split(".", 1)
+    # modifies: the listed objects / attributes must be writable in the caller's frame; listed attributes are havoc'd
+    for m in (con.modifies if modifies_applies(ip, con, node, env) else ()):
+        pname = m.split(".", 1)[0]
         obj = env.get(pname)
-        if isinstance(obj, SObj):
-            if not obj.fresh and (obj.oid, attr) not in ip.modifies_ok:
+        if isinstance(obj, SObj) and "." in m:
+            attr = m.split(".", 1)[1]
+            if not obj.fresh and (obj.oid, attr) not in ip.modifies_ok and (obj.oid, "*") not in ip.modifies_ok:
                 ip.frame_violation(f"call of {qn} modifies {obj.name}.{attr}")
             obj.attrs[attr] = Z(V.fresh(f"{pname}.{attr}'"))
+        elif obj is not None and not (_attr_writable(ip, obj, m.split(".", 1)[1]) if "." in m else is_writable(ip, obj)):
+            ip.frame_violation(f"call of {qn} modifies its argument `{m}`, which is not fresh in the caller")
     old = {k: v for k, v in env.items()}
     # exceptional outcomes
     if con.raises:
@@ -87,6 +156,9 @@ def apply_contract(ip, con, f, args, kwargs):
     from .contracts import Shape, AnyVal
     sh = con.returns if con.returns is not None else AnyVal()
     result = sh.make(ip, f"res_{qn.split(':')[-1]}") if isinstance(sh, Shape) else ip.wrap(sh)
+    if con.fresh_result and isinstance(result, Z):
+        from .builtins_model import FreshZ
+        result = FreshZ(result.t, result.cls, True)
     if con.ensures is not None:
         env2 = dict(env)
         env2["result"] = result
